@@ -1,2 +1,48 @@
+use crate::vj;
+use libhaystack::encoding::zinc;
 use serde_json::{json, Value as J};
-pub fn run(api: &str, _case: &J) -> J { json!({"bad_api": api}) }
+use std::io::{Error, ErrorKind, Read};
+
+/// reader delivering the data in chunks of `chunk` bytes, returning Interrupted before every `intr`-th read
+struct Chunky { data: Vec<u8>, pos: usize, chunk: usize, intr: usize, calls: usize }
+impl Read for Chunky {
+    fn read(&mut self, buf: &mut [u8]) -> std::io::Result<usize> {
+        self.calls += 1;
+        if self.intr > 0 && self.calls % self.intr == 0 { return Err(Error::new(ErrorKind::Interrupted, "signal")); }
+        let n = buf.len().min(self.chunk).min(self.data.len() - self.pos);
+        buf[..n].copy_from_slice(&self.data[self.pos..self.pos + n]);
+        self.pos += n;
+        Ok(n)
+    }
+}
+
+pub fn run(api: &str, case: &J) -> J {
+    match api {
+        // decode through a chunking / interrupting reader; must equal the plain decode (C11)
+        "zinc_decode_chunked" => {
+            let data = vj::unhex(case["in"].as_str().unwrap());
+            let mut rd = Chunky { data, pos: 0, chunk: case["chunk"].as_u64().unwrap_or(1) as usize, intr: case["intr"].as_u64().unwrap_or(0) as usize, calls: 0 };
+            let r = zinc::decode::parser::Parser::make(&mut rd).and_then(|mut p| p.parse_value());
+            match r { Ok(v) => json!({"ok": vj::to(&v)}), Err(e) => json!({"err": e.to_string()}) }
+        }
+        // lazy rows: bytes consumed from the reader at the moment each row is handed out
+        "zinc_lazy_positions" => {
+            let data = vj::unhex(case["in"].as_str().unwrap());
+            let mut rd = Chunky { data, pos: 0, chunk: 1, intr: 0, calls: 0 };
+            let p: *const Chunky = &rd;
+            let mut parser = match zinc::decode::parser::Parser::make(&mut rd) { Ok(p) => p, Err(e) => return json!({"err": e.to_string()}) };
+            let mut out = vec![];
+            match zinc::decode::parse_grid_iterator(&mut parser) {
+                Ok(it) => {
+                    for r in it {
+                        let pos = unsafe { (*p).pos };
+                        match r { Ok(d) => out.push(json!({"pos": pos, "row": vj::dict_to(&d)})), Err(e) => { out.push(json!({"pos": pos, "err": e.to_string()})); break; } }
+                    }
+                    json!({"ok": out})
+                }
+                Err(e) => json!({"err": e.to_string()}),
+            }
+        }
+        other => crate::apis8::run(other, case),
+    }
+}
